@@ -1252,7 +1252,7 @@ class GenFunctions(object):
             del new.ast.params[i:]  # remove trailing arguments
             new._has_default_arg = False
             # Python and Lua both deal with default args in their own way
-            new.wrap.assign(c=True, fortran=True)
+            new.wrap.assign(c=node.wrap.c, fortran=node.wrap.fortran)
             fmt = new.fmtdict
             try:
                 fmt.function_suffix = default_arg_suffix[ndefault]
